@@ -144,6 +144,9 @@ class ExcoreCollection(dict):
         """Needed to support pickling and unpickling the Reactor."""
         memo[id(self)] = newE = self.__class__.__new__(self.__class__)
         newE.__setstate__(copy.deepcopy(self.__getstate__(), memo))
+        # the registered structures are the dict ITEMS (not instance attributes): carry them over too
+        for key, structure in self.items():
+            newE[key] = copy.deepcopy(structure, memo)
         return newE
 
     def __repr__(self):
